@@ -495,6 +495,10 @@ def _ondemand_strategy():
         wc["numprocesses"] = draw(st.integers(1, 3))
         wc["warmup_delay"] = draw(st.sampled_from([0, 0.05, 0.3, 0.3]))
         c["sockets"] = [draw(st.sampled_from(['unix', 'inet']))]
+        for other in c["watchers"][1:]:
+            # a plain watcher may use the managed sockets too
+            if draw(st.booleans()):
+                other["use_sockets"] = True
         if draw(st.booleans()):
             c["arbiter"] = {"warmup_delay": draw(st.sampled_from(
                 [0.05, 0.3]))}
